@@ -719,7 +719,14 @@ class DateTimeBase(Converter, abc.ABC):
                 could not be converted.
         """
         try:
-            return datetime.strptime(value, kwargs["format"])
+            try:
+                return datetime.strptime(value, kwargs["format"])
+            except ValueError:
+                # Ignore surrounding whitespace, like the rest of the converters
+                if isinstance(value, str) and value != value.strip():
+                    return datetime.strptime(value.strip(), kwargs["format"])
+
+                raise
         except KeyError:
             raise ConverterError("Missing format keyword argument")
         except Exception as e:
